@@ -167,23 +167,23 @@ def run_check(chk: PropertyCheck, tier: str) -> int:
         results = []
         impl_failures = []
         for c in cases:
-            obs = chk.run_impl(c)
+            obs = _observe(chk, c)
             results.append((c, obs))
-            nt = chk.nontrivial(c, obs)
+            nt = False if _unobservable(obs) else chk.nontrivial(c, obs)
             rep.count_case(chk.describe(c), nt)
-            why = chk.monitor(c, obs)
+            why = _judge(chk, c, obs)
             if why:
                 impl_failures.append((c, obs, why))
         for c, obs in results[:2] + results[len(results) // 2: len(results) // 2 + 1] + results[-1:]:
             rep.sample({"case": chk.describe(c), "observed": obs}, limit=4)
 
         for c, obs, why in _dedup(chk, impl_failures):
-            small = chk.shrink(c, lambda cc: chk.monitor(cc, chk.run_impl(cc)) is not None)
-            sobs = chk.run_impl(small)
-            swhy = chk.monitor(small, sobs) or why
+            small = chk.shrink(c, lambda cc: _judge(chk, cc, _observe(chk, cc)) is not None)
+            sobs = _observe(chk, small)
+            swhy = _judge(chk, small, sobs) or why
             rep.violation({"input": chk.describe(small), "observed": sobs, "required": swhy,
                            "how": "property predicate evaluated on the implementation's own output"},
-                          found_input=True, signature=chk.signature(small, sobs, swhy))
+                          found_input=True, signature=_sig(chk, small, sobs, swhy))
 
         # 4. correspondence
         mismatches = []
@@ -192,7 +192,7 @@ def run_check(chk: PropertyCheck, tier: str) -> int:
             # those are judged by the property predicate only
             compared = [(c, o) for c, o in results if chk.model_input(c) is not None]
             rep.cov["cases_compared_with_model"] = len(compared)
-            zc = [(chk.model_input(c), chk.obs_to_z(c, o)) for c, o in compared]
+            zc = [(chk.model_input(c), _obs_z(chk, c, o)) for c, o in compared]
             try:
                 bad_idx, _ = run_cases_in_coq(chk.pid, chk.model_imports, chk.run_expr, zc,
                                               shard=chk.shard, preamble=chk.case_preamble, in_ty=chk.case_type)
@@ -223,7 +223,7 @@ def run_check(chk: PropertyCheck, tier: str) -> int:
                     mo = common.eval_in_coq(chk.model_imports, [f"({chk.run_expr}) ({chk.model_input(c)})"],
                                             preamble=chk.case_preamble)
                     payload["model_output_z"] = mo[0]
-                    payload["implementation_output_z"] = chk.obs_to_z(c, obs)
+                    payload["implementation_output_z"] = _obs_z(chk, c, obs)
                 except Exception as e:  # noqa
                     payload["model_output_z"] = f"unavailable: {e}"
             rep.violation(payload, found_input=False)
@@ -233,7 +233,7 @@ def run_check(chk: PropertyCheck, tier: str) -> int:
             if mismatches:
                 c, obs = mismatches[0]
                 payload["first_disagreeing_case"] = chk.describe(c)
-                payload["implementation_output_z"] = chk.obs_to_z(c, obs)
+                payload["implementation_output_z"] = _obs_z(chk, c, obs)
                 try:
                     payload["model_output_z"] = common.eval_in_coq(
                         chk.model_imports, [f"({chk.run_expr}) ({chk.model_input(c)})"], preamble=chk.case_preamble)[0]
@@ -245,11 +245,45 @@ def run_check(chk: PropertyCheck, tier: str) -> int:
     return rep.finish()
 
 
+def _observe(chk, c):
+    """run the implementation on a case; a driver that cannot even record what the implementation did (its output has a
+    shape the driver's bookkeeping does not expect) yields an 'unobservable' observation, which is itself a failure of the case"""
+    try:
+        return chk.run_impl(c)
+    except Exception as e:  # noqa
+        import traceback
+        tb = traceback.extract_tb(e.__traceback__)
+        return {"crash": f"{type(e).__name__}: {e}", "unobservable": True,
+                "where": [f"{f.filename.rsplit('/', 1)[-1]}:{f.lineno} {f.line}" for f in tb[-3:]]}
+
+
+def _unobservable(obs):
+    return isinstance(obs, dict) and obs.get("unobservable") is True
+
+
+def _judge(chk, c, obs):
+    if _unobservable(obs):
+        return ("the implementation's output could not be recorded: " + obs["crash"] + " at " + "; ".join(obs["where"][-2:]))[:400]
+    return chk.monitor(c, obs)
+
+
+def _sig(chk, c, obs, why):
+    if _unobservable(obs):
+        return "unobservable:" + obs["crash"][:60]
+    return chk.signature(c, obs, why)
+
+
+def _obs_z(chk, c, obs):
+    if _unobservable(obs):
+        return [-98]
+    return chk.obs_to_z(c, obs)
+
+
 def _dedup(chk, failures, limit=3):
     seen = set()
     out = []
     for c, obs, why in failures:
-        sig = chk.signature(c, obs, why) or why
+        sig = _sig(chk, c, obs, why) or why
         if sig in seen:
             continue
         seen.add(sig)
